@@ -145,7 +145,8 @@ def run(ctx):
         vlib.log(f"MODEL-DRIFT (not a violation): {drift} replayed scenarios where the real fetch refused more than the model")
     # 4. implementation -> spec
     n = 1200 if thorough else 90
-    recorded, accepted, rdrift = F.record_and_validate(ctx, PROP, n, 4, threads, statement_checks)
+    recorded, accepted, rdrift = F.record_and_validate(ctx, PROP, n, 4, threads, statement_checks,
+                                                         budget_secs=300 if thorough else 60, at_least=200 if thorough else 30)
     ok = accepted == len(recorded)
     ctx.cov["traces_validated_against_impl"] += accepted
     ctx.cov["evaluations"] += len(recorded)
